@@ -35,12 +35,14 @@ def ref_split_path(path, minsegs, maxsegs, rest_with_last):
     return ('return', parts + [None] * (maxsegs - len(parts)))
 
 
-def paths():
+def paths(thorough=False):
     segs = ('a', '', 'b.c', 'x y')
     out = set(['', '/', 'a', 'a/b', '//', '///', '/a//', '//a'])
-    for n in range(1, 6):
+    for n in range(1, 8 if thorough else 6):
         for combo in itertools.product(segs, repeat=n):
-            if n > 3 and len(set(combo)) > 2:
+            if n > (4 if thorough else 3) and len(set(combo)) > 2:
+                continue
+            if n > 5 and combo.count('') > 2:
                 continue
             p = '/' + '/'.join(combo)
             out.add(p)
@@ -55,7 +57,7 @@ def _split_path(ctx):
     f = world.func(MOD, 'split_path')
     rep.analysed('strutils.split_path')
     path = T('sym', 'path')
-    grid = paths()
+    grid = paths(ctx.thorough)
     n = 0
     for minsegs in (1, 2, 3, 4):
         for maxsegs in (None, 0, minsegs - 1, minsegs, minsegs + 1,
